@@ -173,6 +173,13 @@ def main():
             rep, ok = vet(d, cl, keep=None, baseline=False, tier=tier, runs=int(runs) if runs else None, seed=seed, demo='--with-demo' in sys.argv)
             det = {c: v['exit'] for c, v in rep.get('checks', {}).items()}
             hits = {c: v['summary'] for c, v in rep.get('checks', {}).items()}
+            if not seed and tier == 'quick' and not runs and '--no-update' not in sys.argv:
+                # the default-seed quick-tier result is what meta.json / the DESIGN table record
+                meta.setdefault('detection', {})
+                for c, v in rep.get('checks', {}).items():
+                    meta['detection'][c] = {'exit': v['exit'], 'first_violation': v['first'], 'summary': v['summary']}
+                meta['expected_checks'] = [c for c, v in meta['detection'].items() if v['exit'] == 1] or [meta['property']]
+                json.dump(meta, open(os.path.join(d, 'meta.json'), 'w'), indent=1)
             rows.append((name, meta['property'], det, hits))
             print('== %s (%s): %s' % (name, meta['property'], det))
         json.dump({'seed': seed or 0, 'tier': tier, 'rows': rows}, open(os.path.join(V, 'selftest', 'seeded_last%s.json' % ('' if not seed else '_seed' + seed)), 'w'), indent=1)
